@@ -15,10 +15,23 @@ SINC_BLENDS = {"Cubic": ("interp_cubic", "get_nearest_times_4", 4), "Quadratic":
 
 
 def nearest_offsets(facts, fname):
-    """sub-index offsets produced by interpolation::get_nearest_times_N, and whether out-of-range sub-indices wrap with an index carry."""
+    """sub-index offsets produced by interpolation::get_nearest_times_N, and whether out-of-range sub-indices wrap with an index carry.
+    Variables are identified by role, not by name: the pair stored into the output array is (index variable, sub-index variable); the
+    oversampling factor is the second parameter."""
     fn = facts.need_free_fn("interpolation", fname)
     offs = None
     wrap_lo = wrap_hi = False
+    fac = fn["params"][1]["name"] if len(fn["params"]) > 1 else "factor"
+    out_param = fn["params"][2]["name"] if len(fn["params"]) > 2 else None
+    # (index, sub-index) variable names from the stores `points[..] = (A, B)`
+    pairs = set()
+    for x in walk(fn["body"]):
+        if x.get("k") == "assign" and x["l"].get("k") == "index" and out_param and is_path(x["l"]["e"], out_param) and x["r"].get("k") == "tuple" \
+                and len(x["r"]["elems"]) == 2 and all(is_path(e_) for e_ in x["r"]["elems"]):
+            pairs.add((x["r"]["elems"][0]["p"], x["r"]["elems"][1]["p"]))
+    tail = fn["body"]["stmts"][-1] if fn["body"]["stmts"] else None
+    if tail is not None and tail.get("k") == "expr" and tail["e"].get("k") == "tuple" and len(tail["e"]["elems"]) == 2 and all(is_path(e_) for e_ in tail["e"]["elems"]):
+        pairs.add((tail["e"]["elems"][0]["p"], tail["e"]["elems"][1]["p"]))
     for x in walk(fn["body"]):
         if x.get("k") == "for" and x["iter"].get("k") == "mcall" and x["iter"]["name"] == "enumerate" and x["iter"]["recv"].get("k") == "range":
             r = x["iter"]["recv"]
@@ -26,28 +39,35 @@ def nearest_offsets(facts, fname):
             hi = int(show(r["hi"]))
             offs = list(range(lo, hi + (1 if r.get("incl") else 0)))
         if x.get("k") == "if":
-            c = nbit(x["c"])
-            body = nbit(x["then"]) if False else show(x["then"])
-            if c == "(subindex < i:0)" and "subindex += factor" in body.replace("(", "").replace(")", "") and "index -= 1" in body:
-                wrap_lo = True
-            if c in ("(subindex >= factor)",) and "subindex -= factor" in body and "index += 1" in body:
-                wrap_hi = True
+            c = x["c"]
+            while c.get("k") == "paren":
+                c = c["e"]
+            for A, B in pairs:
+                ups = {(y["l"]["p"], y["op"], nbit(y["r"])) for y in walk(x["then"]) if y.get("k") == "opassign" and is_path(y["l"])}
+                if c.get("k") == "bin" and c["op"] == "<" and is_path(c["l"], B) and nbit(c["r"]) == "i:0" and (B, "+", fac) in ups and (A, "-", "i:1") in ups:
+                    wrap_lo = True
+                if c.get("k") == "bin" and c["op"] == ">=" and is_path(c["l"], B) and is_path(c["r"], fac) and (B, "-", fac) in ups and (A, "+", "i:1") in ups:
+                    wrap_hi = True
+    subs = {B for _, B in pairs}
     if offs is None and fname.endswith("_2"):
         # explicit form: points[0] = (index, subindex); subindex += 1; wrap; points[1] = ..
-        inc = [x for x in walk(fn["body"]) if x.get("k") == "opassign" and is_path(x["l"], "subindex") and x["op"] == "+" and nbit(x["r"]) == "i:1"]
+        inc = [x for x in walk(fn["body"]) if x.get("k") == "opassign" and is_path(x["l"]) and x["l"]["p"] in subs and x["op"] == "+" and nbit(x["r"]) == "i:1"]
         if len(inc) == 1:
             offs = [0, 1]
-    # base sub-index: floor((t - floor(t)) * factor)
+    # base sub-index: floor((t - floor(t)) * factor), whatever the local is called
     base_ok = False
     tname = fn["params"][0]["name"]
     for x in walk(fn["body"]):
-        if x.get("k") == "let" and x.get("init") is not None and x["pat"]["k"] == "pident" and x["pat"]["name"] in ("frac", "subindex"):
+        if x.get("k") == "let" and x.get("init") is not None and x["pat"]["k"] == "pident":
             v = strip_casts(x["init"])
-            if v.get("k") == "mcall" and v["name"] == "floor":
-                a_ = Alg(TypeEnv(locals_={tname: "f64", "factor": "int"}))
-                tv, fv = a_.sym(tname), a_.sym("factor")
-                if sp.simplify(a_.conv(v["recv"]) - (tv - floor_f(tv)) * fv) == 0:
-                    base_ok = True
+            if v.get("k") == "mcall" and v["name"] == "floor" and v["recv"].get("k") != "path":
+                a_ = Alg(TypeEnv(locals_={tname: "f64", fac: "int"}))
+                tv, fv = a_.sym(tname), a_.sym(fac)
+                try:
+                    if sp.simplify(a_.conv(v["recv"]) - (tv - floor_f(tv)) * fv) == 0:
+                        base_ok = True
+                except Exception:      # noqa: BLE001 - some other floor(..): not the base sub-index
+                    pass
     return fn, offs, wrap_lo, wrap_hi, base_ok
 
 
